@@ -108,7 +108,10 @@ def cp_case(draw, **over: Any) -> Dict[str, Any]:
 
     case["prelude"] = draw(prelude_strategy())
     case["params"] = {"rank": rank, "annotation": ann, "instance": inst,
-                      "zero_weight_launch_edges": draw(st.sampled_from([False, True]))}
+                      "zero_weight_launch_edges": draw(st.sampled_from([False, True])),
+                      # CRITICAL_PATH_STRICT_NEG_WEIGHT_CHECK=1 only changes how edges of weight <= -1 are treated; causally
+                      # consistent traces have none, so the analysis must succeed and give the same graph with it
+                      "strict_negative_weight_check": draw(st.sampled_from([False, False, False, True]))}
     return case
 
 
@@ -142,7 +145,8 @@ class CPRun:
         self.inst = tuple(inst) if isinstance(inst, list) else inst
         self.window = Window(self.events, p["annotation"], inst)
         self.min_ts = self.ta.t.min_ts if case.get("unrounded") else int(self.ta.t.min_ts)
-        with env_flag("CRITICAL_PATH_ADD_ZERO_WEIGHT_LAUNCH_EDGE", p["zero_weight_launch_edges"]):
+        with env_flag("CRITICAL_PATH_ADD_ZERO_WEIGHT_LAUNCH_EDGE", p["zero_weight_launch_edges"]), \
+                env_flag("CRITICAL_PATH_STRICT_NEG_WEIGHT_CHECK", p.get("strict_negative_weight_check", False)):
             res = hta_call("critical_path_analysis",
                            lambda: self.ta.critical_path_analysis(rank=self.rank, annotation=p["annotation"], instance_id=self.inst))
         require(res is not None and isinstance(res, tuple) and len(res) == 2, "cp:returns_graph", lambda: repr(res))
